@@ -6,7 +6,9 @@
    the deterministic scheduler (outcome = all threads finished) on every run of the check. *)
 From Coq Require Import Arith Lia List.
 From DC Require Import Disruptor.WaitSignal.
-From DC Require Disruptor.Pipeline Disruptor.Progress Disruptor.WaitProgress.
+From DC Require Disruptor.Pipeline Disruptor.Progress Disruptor.WaitProgress Disruptor.Liveness Disruptor.LiveReplay.
+From Coq Require Import ZArith.
+Import ListNotations.
 
 Theorem C06_no_lost_wakeup_partial : forall need s0 s w,
   initial s0 -> reachable need s0 s -> (forall k, sp s k = SDone) ->
@@ -64,3 +66,69 @@ Print Assumptions C06_no_lost_wakeup_partial.
 Print Assumptions C06_blocking_waiter_can_return.
 Print Assumptions C06_wake_invariant.
 Print Assumptions C06_guard_is_exclusive.
+
+
+(* ---- TERMINATION of the whole single-producer protocol (Disruptor/Liveness.v) ---------------------------------------------
+   The main thread runs a program: write calls of 1..N events each, then drain (raise the alert once the last stage has caught
+   up), then join; handlers exit only after the alert.  The steps are those of Pipeline.v.  For every ring size, stage
+   topology, program and interleaving:
+   (1) every step strictly decreases a potential, so EVERY run is finite, with an explicit bound - no livelock, whatever the
+       scheduler does (a spinning or parked thread is a thread whose step is not enabled; that a parked waiter whose condition
+       has become true is woken is the wait / signal theorems above);
+   (2) a reachable state with no enabled step is the COMPLETE state - all write calls returned, the alert raised, every handler
+       exited - so there is no deadlock at any point of the protocol;
+   (3) in the complete state every handler has returned from every event written (except the one stored under sequence 0,
+       finding D7 of C04).
+   Hence under any scheduler that runs an enabled thread whenever there is one, write, drain and join all return. *)
+Theorem C06_every_step_decreases_the_potential : forall N H stage last
+  (stage_le : forall h, h < H -> stage h <= last)
+  (stage_nonempty : forall k, k <= last -> exists h, h < H /\ stage h = k) t t',
+  Liveness.TInv N H stage last t -> Liveness.tstep N H stage last t t' -> Liveness.Phi H t' < Liveness.Phi H t.
+Proof. exact Liveness.step_decreases. Qed.
+
+Theorem C06_every_run_of_a_program_is_finite : forall N H stage last
+  (stage_le : forall h, h < H -> stage h <= last)
+  (stage_nonempty : forall k, k <= last -> exists h, h < H /\ stage h = k) prog n t,
+  Liveness.ok_prog N prog -> Liveness.trun N H stage last n (Liveness.tinit prog) t ->
+  n <= Liveness.todoPhi H prog + 2 * H + 1.
+Proof. exact Liveness.runs_bounded. Qed.
+
+Theorem C06_stuck_only_when_complete : forall N H stage last
+  (stage_le : forall h, h < H -> stage h <= last)
+  (stage_nonempty : forall k, k <= last -> exists h, h < H /\ stage h = k) prog t,
+  Liveness.ok_prog N prog -> Liveness.treachable N H stage last prog t ->
+  (forall t', ~ Liveness.tstep N H stage last t t') -> Liveness.complete H t.
+Proof. exact Liveness.stuck_only_when_complete. Qed.
+
+Theorem C06_complete_means_everything_delivered : forall N H stage last prog t,
+  Liveness.treachable N H stage last prog t -> Liveness.complete H t ->
+  Pipeline.cursor (Liveness.ts t) = Liveness.sumc prog - 1 /\
+  forall h, h < H -> Pipeline.done (Liveness.ts t) h = Pipeline.cursor (Liveness.ts t).
+Proof. exact Liveness.complete_all_delivered. Qed.
+
+Theorem C06_every_program_can_complete : forall N H stage last
+  (stage_le : forall h, h < H -> stage h <= last)
+  (stage_nonempty : forall k, k <= last -> exists h, h < H /\ stage h = k) prog,
+  Liveness.ok_prog N prog -> forall t, Liveness.treachable N H stage last prog t ->
+  exists t', Liveness.treachable N H stage last prog t' /\ Liveness.complete H t'.
+Proof. exact Liveness.completion_exists. Qed.
+
+(* the tie to the code: every logged execution of a drained single-producer pipeline is replayed on this model (extracted
+   LiveReplay.replay: the program's write calls, the alert only when the model says everything is consumed, thread ends only
+   after the alert); an accepted execution is a run of the model, every continuation of it is finite and can only stop in the
+   complete state *)
+Theorem C06_replayed_run_terminates : forall N sizes prog l r',
+  sizes <> [] -> Forall (fun n => 1 <= n) sizes -> Liveness.ok_prog N prog ->
+  let H := LiveReplay.sumsz sizes in let stage := fun h => PipeReplay.stage_of sizes h 0 in let last := length sizes - 1 in
+  LiveReplay.replay N H stage last (LiveReplay.linit prog) l 0 = ((-1)%Z, r') ->
+  (forall n t, Liveness.trun N H stage last n (LiveReplay.lm r') t -> n + Liveness.Phi H t <= Liveness.Phi H (LiveReplay.lm r')) /\
+  (forall n t, Liveness.trun N H stage last n (LiveReplay.lm r') t ->
+     (forall t', ~ Liveness.tstep N H stage last t t') -> Liveness.complete H t).
+Proof. exact LiveReplay.replayed_run_terminates. Qed.
+
+Print Assumptions C06_every_step_decreases_the_potential.
+Print Assumptions C06_every_run_of_a_program_is_finite.
+Print Assumptions C06_stuck_only_when_complete.
+Print Assumptions C06_complete_means_everything_delivered.
+Print Assumptions C06_every_program_can_complete.
+Print Assumptions C06_replayed_run_terminates.
